@@ -15,10 +15,10 @@ CHAINS = ['F80', 'F10', 'F120', 'F200', 'F80_F60', 'F40_U_F30', 'U_F60', 'F60_U'
           'Efull_F100_Efull', 'Etype_F100_Egain', 'Evoa_F90_Edp', 'F100lumped', 'F200att', 'F100_F100_F100', 'Ehot_F80',
           'Egainhot_F100', 'F0.05', 'F80_Evoa', 'Evoa_F100']
 SPACE = dict({'graph': ['P2', 'P3', 'TRI'], 'chain': CHAINS, 'chain_rev': ['F80', 'F200', 'F40_U_F30', 'F10', 'F80_Evoa'],
-              'eq': ['test', 'example'],
+              'eq': ['test', 'example', 'example_p228'],
               'dpr': [[-2, 3, 0.5], [0, 0, 0.5], [0, 3, 3], [-1, 1, 0.1], [-1.2, 1.3, 0.5], [0, 0, 0]],
-              'slope': [0.3, 0.5], 'loss_ref': [20, 17], 'voa_auto': [0, 1], 'si_power': [0, 3, -2],
-              'roadm_target': [-20, -25, -12, -17.3]}, **tg.SPAN_SPACE)
+              'slope': [0.3, 0.5], 'loss_ref': [20, 17], 'voa_auto': [0, 1], 'si_power': [0, 3, -2, 5],
+              'roadm_target': [-20, -25, -12, -17.3], 'band_spacing': [None, 37.5e9, 100e9]}, **tg.SPAN_SPACE)
 
 
 def chain(kind):
@@ -39,7 +39,7 @@ def topology(case):
         else:
             fwd, rev = chain(['F80', 'F80_E_F70', 'F40_U_F30'][k % 3]), chain(['F80', 'F120'][k % 2])
         ls.append((a, b, fwd, rev))
-    return c.build_topology(sites, ls)
+    return c.build_topology(sites, ls, roadm_params=tg.roadm_params(case, sites))
 
 
 def round_to_step(x, step):
@@ -52,9 +52,70 @@ def round_to_step(x, step):
     return round(x, 2), abs(abs(x * 100 - math.floor(x * 100)) - 0.5) < 1e-7
 
 
+def run_trxline(case):
+    """ROADM-less line trx - amplifier - 80 km - amplifier - 60 km - amplifier - trx: the first amplifier's gain closes the
+    budget from the transceiver's launch power, and propagating the design comb at that launch power reproduces the design"""
+    import numpy as np
+    from gnpy.core.elements import Edfa
+    viol = []
+    eq = tg.library({'eq': 'test', 'mode': case['mode'], 'si_power': case['si_power']})
+    if case['tx_power_dbm'] is not None:
+        eq['SI'][0]['tx_power_dbm'] = case['tx_power_dbm']
+    els = [{'uid': 'trx A', 'type': 'Transceiver'}, {'uid': 'trx B', 'type': 'Transceiver'},
+           dict(c.edfa(), uid='amp1'), dict(c.fiber(80), uid='f1'), dict(c.edfa(), uid='amp2'), dict(c.fiber(60), uid='f2'),
+           dict(c.edfa(), uid='amp3')]
+    for e in els:
+        e.setdefault('metadata', {'location': {'latitude': 0, 'longitude': 0, 'city': 'x', 'region': 'y'}})
+    order = ['trx A', 'amp1', 'f1', 'amp2', 'f2', 'amp3', 'trx B']
+    topo = {'elements': els, 'connections': [{'from_node': a, 'to_node': b} for a, b in zip(order, order[1:])]}
+    try:
+        net, equipment, req, ref = c.design(topo, eq, source='trx A', destination='trx B')
+    except Exception as exc:  # noqa
+        return {'violations': [dict(fingerprint=f'trx-line-design-raised:{type(exc).__name__}', what=str(exc)[:200], case=case)],
+                'transitions': 1}
+    si = equipment['SI']['default']
+    pref = si.power_dbm
+    launch = si.tx_power_dbm if si.tx_power_dbm is not None else pref
+    amps = {n.uid: n for n in net.nodes() if isinstance(n, Edfa)}
+    a1 = amps['amp1']
+    transitions = 1
+    if equipment['Span']['default'].power_mode:
+        exp = pref + a1.delta_p - launch
+        if abs(a1.effective_gain - exp) > 1e-6:
+            viol.append(dict(fingerprint='first-amplifier-gain-does-not-close-budget:trx-line', case=case,
+                             what=f'reference power {pref} dBm, transceiver power {launch} dBm (SI tx_power_dbm '
+                                  f'{case["tx_power_dbm"]!r}): first amplifier gain {a1.effective_gain:.4f} dB, budget '
+                                  f'reference + offset {a1.delta_p} - launch = {exp:.4f} dB'))
+    # propagation of the design comb launched at the transceiver power
+    path = [next(n for n in net.nodes() if n.uid == u) for u in order]
+    rq = c.make_request(equipment, 'trx A', 'trx B', tx_power_dbm=launch)
+    try:
+        pth, sinfo, rec = c.propagate_recorded(path, rq, equipment)
+        for st in rec.steps:
+            if st['cls'] != 'Edfa' or not equipment['Span']['default'].power_mode:
+                continue
+            amp = amps[st['uid']]
+            post = st['post']
+            sig = 10 * math.log10(float((post['pch'] * post['sr']).sum() / len(post['pch']))) + 30
+            tot = 10 * math.log10(float(post['pch'].sum() / len(post['pch']))) + 30
+            exp = pref + amp.delta_p - amp.out_voa
+            transitions += 1
+            if not (sig - 1e-6 <= exp <= tot + 1e-6) and st['el'].effective_gain >= amp.effective_gain - 1e-9:
+                viol.append(dict(fingerprint='design-power-not-reproduced:trx-line', case=case,
+                                 what=f'{st["uid"]}: mean channel power after the amplifier {sig:.4f}..{tot:.4f} dBm, design says '
+                                      f'{exp:.4f} dBm (launch {launch} dBm, reference {pref} dBm)'))
+                break
+    except Exception as exc:  # noqa
+        viol.append(dict(fingerprint=f'trx-line-propagation-raised:{type(exc).__name__}', what=str(exc)[:200], case=case))
+    return {'violations': viol[:4], 'transitions': transitions, 'traces': 0 if viol else 1, 'nontrivial': launch != pref,
+            'tags': {'trx-line': 1}, 'outcomes': ['trx-line'], 'sample': case}
+
+
 def run_case(case):
     import numpy as np
     from gnpy.core.elements import Edfa, Multiband_amplifier, Fiber, RamanFiber, Fused, Roadm, Transceiver
+    if case.get('kind') == 'trxline':
+        return run_trxline(case)
     from gnpy.core.exceptions import ConfigurationError
     from gnpy.core.utils import automatic_nch
     viol = []
@@ -75,7 +136,11 @@ def run_case(case):
     power_mode = span.power_mode
     lo, hi, step = span.delta_power_range_db
     pref = si.power_dbm
-    nch = automatic_nch(si.f_min, si.f_max, si.spacing)
+    if case.get('band_spacing') and not si.use_si_channel_count_for_design:
+        # design load counted on the design band of the ROADM degrees (use_si_channel_count_for_design is off by default)
+        nch = automatic_nch(tg.CB['f_min'], tg.CB['f_max'], case['band_spacing'])
+    else:
+        nch = automatic_nch(si.f_min, si.f_max, si.spacing)
     pref_tot = pref + 10 * math.log10(nch)
     tags = {}
     transitions = 0
@@ -184,7 +249,8 @@ def run_case(case):
                 acc = 0.0
     # ---- (3) reproduction by propagating the design comb (P2 / first link only, power mode or gain mode alike)
     repro = 0
-    if not viol:
+    # (with a design band of another spacing the design comb is not the SI comb: only parts 1-2 are judged)
+    if not viol and not case.get('band_spacing'):
         for path in c.all_simple_trx_paths(net):
             if any(isinstance(n, (RamanFiber, Multiband_amplifier)) for n in path):
                 continue
@@ -256,6 +322,18 @@ def main(rep, tier, seed):
     d = 2 if tier == 'quick' else 3
     bases = engine.pick_bases(sp.bases, seed, tier, n_quick=2)
     cases = [{k: x[k] for k in SPACE} for x in sp.enumerate(d, bases=bases)]
+    # always: one deviation around a point where the required power exceeds every model and two models tie within 0.3 dB
+    hot = {'eq': 'example_p228', 'si_power': 5, 'chain': 'F80_E_F70'}
+    seen = {engine.jdump(x) for x in cases}
+    for x in sp.enumerate(1, bases=[hot]):
+        y = {k: x[k] for k in SPACE}
+        if engine.jdump(y) not in seen:
+            cases.append(y)
+    # lines that start at a transceiver (no ROADM): launch power = SI tx_power_dbm if given, else the reference power
+    for si_power in (0, 2, -1.5):
+        for txp in (None, 0, 0.0, 1.5, -3):
+            for mode in ('power', 'gain'):
+                cases.append({'kind': 'trxline', 'si_power': si_power, 'tx_power_dbm': txp, 'mode': mode})
     results, stats = engine.run_pool('checks.c09', cases, horizon=300)
     rep.absorb(results)
     rep.cov['bound'] = f'<= {d} deviations from base points {bases} over {list(SPACE)}'
